@@ -8,4 +8,5 @@ CONSTANTS
   Mode <- M2
   Timed = {t1, t2}
   Kind = "rw"
+  PeekUnlock = FALSE
 INVARIANTS WriterExclusive StateMatchesHolders AdmittedAfterLastUnlock FailedIsNoOp
